@@ -231,3 +231,52 @@ Definition ns_canon_digits (ds : list Z) : bool :=
   end.
 
 Definition ns_val (ds : list Z) : Z := fold_left (fun a d => a * 10 + (d - 48)) ds 0.
+
+(* ---------------------------------------------------------------- the callers' loop up to the END OF THE STREAM *)
+(* every production caller of the buffered variant (ConfigObject::RestoreObjects, ApiListener::ReplayLog, the object
+   and variable list readers of the CLI) runs
+       for (;;) { srs = ReadStringFromStream(sfp, &message, src);
+                  if (srs == StatusEof) break;  if (srs != StatusNewItem) continue;  handle(message); }
+   [fills] is what the successive FillFromStream calls deliver while the stream has not ended (a chunk may be empty:
+   count = 0 on a stream that is not at EOF); when the list is used up FillFromStream reports the end (None).
+   A fill is consumed exactly by the calls that find MustRead set.  The loop is cut after [fuel] calls; the result is
+   the status returned by every call, in order, and the context after the last one. *)
+Fixpoint ns_loop (fuel : nat) (max : Z) (c : ns_ctx) (fills : list (list Z)) : list ns_status * ns_ctx :=
+  match fuel with
+  | O => ([], c)
+  | S f =>
+      let fill := match fills with [] => None | d :: _ => Some d end in
+      let fills' := if negb (ns_eof c) && ns_must c then tl fills else fills in
+      let '(st, c') := ns_ctx_read max c fill in
+      match st with
+      | NsStNew _ | NsStNeed => let '(tr, c'') := ns_loop f max c' fills' in (st :: tr, c'')
+      | _ => ([st], c')                                   (* StatusEof: break; exception: leaves the loop *)
+      end
+  end.
+
+Inductive ns_end := NsEndEof | NsEndErr (e : Z) | NsEndFuel.      (* NsEndFuel: no terminal status within the fuel *)
+
+Fixpoint ns_trace_items (tr : list ns_status) : list (list Z) :=
+  match tr with
+  | [] => []
+  | NsStNew p :: t => p :: ns_trace_items t
+  | _ :: t => ns_trace_items t
+  end.
+
+Fixpoint ns_trace_end (tr : list ns_status) : ns_end :=
+  match tr with
+  | [] => NsEndFuel
+  | NsStEof :: _ => NsEndEof
+  | NsStErr e :: _ => NsEndErr e
+  | NsStOob :: _ => NsEndErr 0
+  | _ :: t => ns_trace_end t
+  end.
+
+(* the bound on the number of calls the theorems establish (C20_ns_eof_terminates) *)
+Definition ns_loop_bound (c : ns_ctx) (fills : list (list Z)) : nat :=
+  S (length (ns_buf c) + length (concat fills) + length fills + (if ns_must c then 0 else 1)).
+
+(* what a caller sees of a whole stream: frames handed over, how the loop ended, bytes left in the buffer at the end *)
+Definition ns_read_all (max : Z) (fills : list (list Z)) : list (list Z) * ns_end * Z :=
+  let '(tr, c) := ns_loop (ns_loop_bound ns_ctx_init fills) max ns_ctx_init fills in
+  (ns_trace_items tr, ns_trace_end tr, ns_len (ns_buf c)).
